@@ -19,6 +19,8 @@ type VacSpec struct {
 	Delta   int64  `json:"delta,omitempty"` // ns added to the reference time
 	Refresh bool   `json:"refresh,omitempty"`
 	ReadErr int    `json:"read_err,omitempty"` // C10: the n-th GET of the vacuum fails cleanly (0 = none)
+	DelErr  int    `json:"del_err,omitempty"`  // the n-th DELETE of the vacuum fails (0 = none): the vacuum is interrupted inside its delete phase, then repeated
+	DelLost bool   `json:"del_lost,omitempty"` // ... after having been applied (response lost) instead of cleanly
 }
 
 type VacParams struct {
@@ -49,6 +51,9 @@ func genVac(r *rand.Rand) *VacParams {
 			Idx: r.IntN(12), Delta: []int64{0, 0, 1, -1, int64(time.Second), -int64(time.Second), int64(time.Millisecond)}[r.IntN(7)], Refresh: r.IntN(2) == 0}
 		if r.IntN(5) == 0 {
 			v.ReadErr = 1 + r.IntN(10)
+		} else if r.IntN(3) == 0 {
+			v.DelErr = 1 + r.IntN(6)
+			v.DelLost = r.IntN(2) == 0
 		}
 		p.Vacuums = append(p.Vacuums, v)
 	}
@@ -234,6 +239,7 @@ func runVacuum(x *Exec, prop string) {
 			}
 			return true
 		}
+		interrupted := "" // class suffix once some vacuum of this run was cut short inside its delete phase
 		for vi, vs := range p.Vacuums {
 			if x.Failed() || w.Viol != nil {
 				return
@@ -256,7 +262,7 @@ func runVacuum(x *Exec, prop string) {
 			var versBefore, versAfter []string
 			var verr error
 			var vres [][]string
-			readErrFired := false
+			readErrFired, delErrFired := false, false
 			allBefore, err := readRO()
 			if err != nil {
 				x.Fail(prop+"-unexpected-error", "read before vacuum: %v", err)
@@ -270,12 +276,42 @@ func runVacuum(x *Exec, prop string) {
 				m.BeginStmt(vc)
 				if prop == "C10" && vs.ReadErr > 0 {
 					w.Faults = []*FaultSpec{{Client: vc.Name, Op: OpGet, Nth: vs.ReadErr, Kind: FaultErr}}
+				} else if vs.DelErr > 0 {
+					// the n-th DELETE of the delete phase (node objects, then version objects under merged/); the
+					// DELETE under current/ that retires the parent of the purge commit is not counted: the code
+					// ignores its outcome by design
+					seen, versionsGone := 0, 0
+					w.OnDeliver = func(r *Request) Fault {
+						if r.H.Client != vc.Name || r.Op != OpDelete || (r.Class() != "node" && r.Class() != "merged") {
+							return FaultNone
+						}
+						seen++
+						if seen != vs.DelErr {
+							if seen < vs.DelErr && r.Class() == "merged" {
+								versionsGone++
+							}
+							return FaultNone
+						}
+						delErrFired = true
+						// where the attempt stopped, structurally: among the node deletes with every version object
+						// still stored (all the unchanged code can do there), or later
+						if r.Class() != "node" || versionsGone > 0 {
+							interrupted = "-after-interrupted-vacuum"
+						} else if interrupted == "" {
+							interrupted = "-after-interrupted-node-deletes"
+						}
+						if vs.DelLost {
+							return FaultLostReply
+						}
+						return FaultErr
+					}
 				}
 				vres, verr = vc.Query("select * from s3db_vacuum(?, ?)", t, FmtTime(cut))
 				if len(w.Faults) > 0 {
 					readErrFired = w.Faults[0].Fired > 0
 					w.Faults = nil
 				}
+				w.OnDeliver = nil
 				rowsAfter, _ = vc.Query("select * from " + t)
 				versAfter, _ = vc.Versions(t)
 			})
@@ -306,6 +342,48 @@ func runVacuum(x *Exec, prop string) {
 				})
 			} else if readErrFired {
 				x.Probe("vacuum-succeeded-despite-read-error")
+			}
+			if delErrFired {
+				// The vacuum was cut short inside its delete phase by a failing DELETE. That is one of the crash
+				// points as far as the bucket goes, but here the process lives on: the statement must have failed,
+				// the table is what it was, retained versions are intact, and repeating the vacuum finishes the job
+				// (checked below against the bucket as it was before the interrupted attempt).
+				x.Check()
+				if verr == nil && len(vres) == 1 && vres[0][0] == "null" {
+					x.Fail(prop+"-vacuum-hid-delete-error", "%s reported success although its DELETE number %d failed", desc, vs.DelErr)
+					return
+				}
+				x.Probe("vacuum-interrupted-in-delete-phase")
+				if cut.After(cstar) {
+					cstar = cut
+				}
+				mid, err := readRO()
+				if err != nil {
+					x.Fail("C09-unreadable", "%s was interrupted by a failing DELETE, then a fresh read-only open fails: %v", desc, err)
+					return
+				}
+				if RowsString(mid) != RowsString(allBefore) {
+					x.Fail("C09-rows-changed", "%s, interrupted by a failing DELETE, changed what a fresh connection sees: %s -> %s", desc, RowsString(allBefore), RowsString(mid))
+					return
+				}
+				if RowsString(rowsBefore) != RowsString(rowsAfter) {
+					x.Fail("C09-rows-changed", "%s, interrupted by a failing DELETE, changed the rows on its own connection: %s -> %s", desc, RowsString(rowsBefore), RowsString(rowsAfter))
+					return
+				}
+				if !checkIntact(w.S.Bucket, "after "+desc+" was interrupted by a failing DELETE") {
+					return
+				}
+				w.Solo(vc, func() {
+					m.BeginStmt(vc)
+					vres, verr = vc.Query("select * from s3db_vacuum(?, ?)", t, FmtTime(cut))
+					rowsAfter, _ = vc.Query("select * from " + t)
+					versAfter, _ = vc.Versions(t)
+				})
+				if verr != nil || len(vres) != 1 || vres[0][0] != "null" {
+					x.Fail(prop+"-vacuum-failed-after-interrupted-vacuum", "%s was interrupted by a failing DELETE; the same vacuum repeated without any fault fails: %v %s", desc, verr, RowsString(vres))
+					return
+				}
+				x.Probe("interrupted-vacuum-repeated")
 			}
 			if verr != nil || len(vres) != 1 || vres[0][0] != "null" {
 				x.Fail(prop+"-vacuum-failed", "%s failed without any fault: %v %s", desc, verr, RowsString(vres))
@@ -355,7 +433,7 @@ func runVacuum(x *Exec, prop string) {
 			}
 			x.Sig(vi, len(vm))
 			if prop == "C10" {
-				if !checkReclaimed(x, m, base, w.S.Bucket, versBefore, versAfter, cut, desc, condemned) {
+				if !checkReclaimed(x, m, base, w.S.Bucket, versBefore, versAfter, cut, desc, condemned, interrupted) {
 					return
 				}
 				// repeating the same vacuum changes nothing
@@ -493,7 +571,7 @@ func bucketDigest(b map[string][]byte) string {
 
 // checkReclaimed: C10 (1) row side and (2) version side.
 func checkReclaimed(x *Exec, m *MWRun, before, after map[string][]byte, versBefore, versAfter []string, cut time.Time, desc string,
-	condemned func(name string, cut time.Time, strict bool) bool) bool {
+	condemned func(name string, cut time.Time, strict bool) bool, sfx string) bool {
 	// (1) rows deleted before the cutoff no longer occupy the table; later deletes keep their marker
 	if len(versBefore) == 1 && len(versAfter) == 1 {
 		pre, err1 := m.Lay.WalkVersion(before, versBefore[0])
@@ -550,7 +628,7 @@ func checkReclaimed(x *Exec, m *MWRun, before, after map[string][]byte, versBefo
 		}
 		x.Check()
 		if _, ok := after[m.Lay.Merged+v]; ok {
-			x.Fail("C10-version-not-reclaimed", "%s: version %s was superseded before the cutoff (all successors created earlier) but is still stored under merged/", desc, v)
+			x.Fail("C10-version-not-reclaimed"+sfx, "%s: version %s was superseded before the cutoff (all successors created earlier) but is still stored under merged/", desc, v)
 			return false
 		}
 		x.Probe("superseded-version-gone")
@@ -604,7 +682,7 @@ func checkReclaimed(x *Exec, m *MWRun, before, after map[string][]byte, versBefo
 		}
 		x.Check()
 		if _, ok := after[m.Lay.Node+n]; ok {
-			x.Fail("C10-node-not-reclaimed", "%s: node %s was needed only by versions superseded before the cutoff but is still stored", desc, n)
+			x.Fail("C10-node-not-reclaimed"+sfx, "%s: node %s was needed only by versions superseded before the cutoff but is still stored", desc, n)
 			return false
 		}
 		x.Probe("orphan-node-gone")
